@@ -5,6 +5,14 @@ HERE = os.path.dirname(os.path.dirname(os.path.abspath(__file__)))
 ALL = [f"C{i:02d}" for i in range(1, 19)]
 # property -> (technique, level text, level note, design_ref)
 CHECKS = {
+ "C12": ("runtime contracts and reference monitors: icontract post-condition on the real unwrap (no wrapper left, idempotent) evaluated on "
+         "every concrete call; independent NumPy evaluator for wrapper nestings; vmapped vs individual construction; wrapped vs "
+         "pre-unwrapped method calls; exact-zero gradients and byte-identity of frozen / non-floating leaves across real training runs",
+         "Exploration: 320 random nestings + 320 vmapped constructions, ~190 wrapped-vs-unwrapped method calls, 64 training runs "
+         "(random frozen subsets x 4 optimisers x both loops) and ~14 000 contract evaluations per quick run.",
+         "The unwrap contract only sees concrete calls (traced ones are counted); reference evaluator covers BijectionReparam, Where, "
+         "WeightNormalization, Lambda, NonTrainable and a harness-defined unwrappable.",
+         "DESIGN.md 4/C12"),
  "C11": ("runtime invariant monitor: predicates on unwrap(obj) evaluated after construction, after assigning every raw trainable leaf "
          "arbitrary values in the box |raw|<=50, and - through a harness rebinding of `step` in the training modules (invariant at a "
          "hook) - after every update of real training runs with aggressive optimisers; invalid constructor arguments must raise",
